@@ -23,13 +23,33 @@ def run(ctx):
     import os
     for f in glob.glob(os.path.join(common.VERIF, "evidence", "replays", "C04-*.json")):
         os.remove(f)
-    ctx.extract(["gate"])
-    ctx.prove(PROPS, extra_modules=["RotoV.Lemmas.Gate", "RotoV.Model.Gate"])
+    ctx.extract(["gate", "gatesig", "gatereg"])
+    # three theorem modules over three regenerated modules, so that a change to check_roto_type / check_args /
+    # get_function breaks the obligations of C04, a change to force_filtermap_types or TypeInfo::convert exactly
+    # those of C04Sig and a change to a Value::resolve body or the registry exactly those of C04Reg
+    parts = []
+
+    def prove(module, extra=(), targets=()):
+        for k in ("theorems", "nonvacuity_examples", "axioms"):
+            ctx.coverage.pop(k, None)
+        ok = ctx.prove(module, extra_modules=list(extra), extra_targets=targets)
+        if ctx.coverage.get("theorems"):  # prove() overwrites these: report all modules
+            parts.append({k: ctx.coverage.get(k) for k in ("theorems", "nonvacuity_examples", "axioms")})
+        return ok
+
+    prove(PROPS, ["RotoV.Lemmas.Gate", "RotoV.Model.Gate"], targets=("rotov-driver",))
+    prove(PROPS + "Sig")
+    prove(PROPS + "Reg")
+    if parts:
+        ctx.coverage["theorems"] = [t for p in parts for t in p["theorems"]]
+        ctx.coverage["nonvacuity_examples"] = sum(p["nonvacuity_examples"] or 0 for p in parts)
+        ctx.coverage["axioms"] = {k: v for p in parts for k, v in (p["axioms"] or {}).items()}
     if ctx.build_harness("c04"):
         ctx.harness("c04", ["run", ctx.seed, ctx.tier], timeout=3000)
     ctx.trusted += [
-        "TypeId is injective on the boundary types and Value::resolve registers children before parents "
-        "(the model's RustTy is the registry's description tree)",
+        "TypeId is injective on the boundary types; the model's RustTy is the registry's description tree: every Value::resolve body "
+        "stores under Self the description built from the entries of its own type parameters (translator target gatereg, "
+        "C04Reg.registry_describes_the_type) and the correspondence run asks for hundreds of instantiations in one process",
         "TypeInfo.WF: the language's reserved global type names are not host-registered types (registration refuses them, C18)",
         "modelled, not verified: check_args / get_function are hand-written models whose source shape the translator asserts "
         "(func! arities, slice-pattern arity test; every gate step of Module::get_function an unconditional top-level statement in "
@@ -40,19 +60,30 @@ def run(ctx):
     return ctx.finish(
         level="proof",
         rule="requests (script function/filtermap/test signature, requested Rust fn type) made in histories on one package: for each "
-             "of 8 targets per script out of a macro-generated family of 1639 Rust fn types (177 boundary types: 20 leaves x "
-             "Option/List/Result/Verdict to depth 2 + depth 3, arity 0..7) the true signature and 4-6 near misses (one leaf / nesting / "
+             "of 8 targets per script out of a macro-generated family of 1815 Rust fn types (177 boundary types: 20 leaves x "
+             "Option/List/Result/Verdict to depth 2 + depth 3, arity 0..7; plus verdicts of the 14 payload types a filtermap body can "
+             "build from unconstrained literals and of 30 neighbours of other width / signedness / float width / order) the true "
+             "signature and 4-6 near misses (one leaf / nesting / "
              "constructor / argument order / arity +-1 / k parameters appended or dropped / parameter order / return / Roto-only type "
              "changed / primitive replaced by the module-registered type of the same identifier), each asked under its target, "
              "same-arity family members, the fn() and one-parameter prefixes, the neighbouring function's true type, the primitive a "
              "module-registered type is named like, unknown and generated-helper names. Scripts are compiled in 4 host environments "
              "(Val<Foo>/Val<Bar> registered globally or in modules as foo.u32, foo.String, net.i64, foo.Option, foo.bar.bool) and may "
-             "re-declare reserved names (record i64 {..}, enum Option[T] {..}: pkg.i64, pkg.Option[u32]); the first 12 scripts of a "
-             "run are the boundary stream (one per class: 4 re-declared primitive names x record/enum rotating with the seed, 3 "
-             "re-declared constructors, 3 module environments, 2 one-sided-arity scripts). Every request of a script is made three "
-             "times on the same package (in order, in reverse order, in order again) and judged against the same stateless oracle; a "
-             "wrong answer is re-run on fresh packages to find the shortest history that produces it. A class is distinct by "
-             "(derivation label, outcome kind, mismatch class, arity), plus (round, true/wrong, label) for repeated requests",
+             "re-declare reserved names (record i64 {..}, enum Option[T] {..}: pkg.i64, pkg.Option[u32]). A filtermap's payload is a "
+             "parameter, a literal, or built by the body: Some(..), [..], Ok(..)/Err(..) in two statements, Verdict.Accept/Reject(..) "
+             "around parameters and (positive or negated) unconstrained literals, so that the inferred signature carries literal type "
+             "variables below constructors, or - as a near miss - a component nothing resolves (None, [], a lone Ok); such a filtermap "
+             "is asked under every lit/litnear family member of its parameter list, and where it is granted under its true signature "
+             "it is also called (in a child process, per script) and must return the value the script computes. The first 14 scripts "
+             "of a run are the boundary stream (one per class: 4 re-declared primitive names x record/enum rotating with the seed, 3 "
+             "re-declared constructors, 3 module environments, 2 one-sided-arity scripts, 2 literal-payload scripts). Every request "
+             "of a script is made three times on the same package (in order, in reverse order, in order again) and judged against "
+             "the same stateless oracle; a wrong answer is re-run on fresh packages to find the shortest history that produces it, "
+             "and the first instance of every violation class is re-run in fresh processes (cold start; then with one earlier request "
+             "of the worker process on another package; then the shortest run of them) so that the replay file carries what of the "
+             "process - whose TypeRegistry is shared by all packages - the answer depends on. A class is distinct by "
+             "(derivation label, outcome kind, mismatch class, arity), plus (round, true/wrong, label) for repeated requests and "
+             "(label, same/other value) for calls",
         search=search,
     )
 
@@ -66,11 +97,27 @@ def replay(ctx, data):
     inp = data["input"]
     hist = inp.get("history") or []
     print(f"function : {inp.get('function')}  (host environment {inp.get('env', 0)})")
+    ph = inp.get("process_history") or []
+    if ph:
+        print(f"process  : {sum(len(g.get('requests', [])) for g in ph)} earlier request(s) on {len(ph)} other package(s) of the "
+              f"same process ({inp.get('process_history_kind')})")
     if hist:
         print(f"history  : {len(hist)} earlier request(s) on the same package ({inp.get('history_kind')})")
     print(f"request  : get_function::<{inp.get('rust_type')}>({inp.get('name')!r})\n"
           f"expected : {inp.get('expected')}\nrecorded : {inp.get('real')}")
-    rep = ctx.harness("c04", ["replay", json.dumps(inp)])
+    if inp.get("call"):
+        print(f"called   : the granted handle returned {inp.get('returned')}; the script computes {inp.get('expected_value')}")
+    import os
+    # the description can be long (a process history carries scripts): hand it over in a file
+    os.makedirs(os.path.join(common.VERIF, "evidence", "replays"), exist_ok=True)
+    path = os.path.join(common.VERIF, "evidence", "replays", ".C04-replay-input.json")
+    with open(path, "w") as f:
+        json.dump(inp, f)
+    rep = ctx.harness("c04", ["replay", "@" + path])
     bad = bool(rep and rep.get("impl_violations"))
-    print("replayed : " + ("the real gate still departs from the documented mapping" if bad else "the real gate now agrees with the documented mapping"))
+    if inp.get("call"):
+        print("replayed : " + ("the handle granted under the documented signature still does not return the script's value" if bad
+                               else "the handle granted under the documented signature now returns the script's value"))
+    else:
+        print("replayed : " + ("the real gate still departs from the documented mapping" if bad else "the real gate now agrees with the documented mapping"))
     return 1 if bad else 0
